@@ -192,6 +192,9 @@ def mutation_of(s):
     if isinstance(s, ast.Expr) and isinstance(s.value, ast.Call) and isinstance(s.value.func, ast.Attribute) \
             and s.value.func.attr in ("append", "extend", "remove") and len(s.value.args) == 1 and not s.value.keywords:
         return s.value.func.attr, s.value.func.value, [s.value.args[0]]
+    if isinstance(s, ast.Expr) and isinstance(s.value, ast.Call) and isinstance(s.value.func, ast.Attribute) \
+            and s.value.func.attr == "reverse" and not s.value.args and not s.value.keywords:
+        return "reverse", s.value.func.value, []
     if isinstance(s, ast.Delete) and len(s.targets) == 1 and isinstance(s.targets[0], ast.Subscript) \
             and not str_key(s.targets[0].slice):
         sl = s.targets[0].slice
@@ -643,7 +646,7 @@ class FnTranslator:
                 # way follows Python's rule for negative indices, see `index`)
                 return "(Z.sub (Z.of_nat %s) (Z.of_nat %s))" % (a, b), "Z"
             return self.binop(n.op, a, b, t, n), t
-        if isinstance(n, ast.Attribute) or (isinstance(n, ast.Subscript) and str_key(n.slice)):
+        if isinstance(n, ast.Attribute) or (isinstance(n, ast.Subscript) and self.key_of(n.slice, env) is not None):
             return self.field_read(n, env)
         if isinstance(n, ast.Subscript):
             return self.subscript(n, env)
@@ -671,6 +674,17 @@ class FnTranslator:
             return self.call(n, env, want)
         raise self.err("expression %s" % type(n).__name__, n)
 
+    def key_of(self, sl, env):
+        """the string a subscript denotes: a string literal, or a parameter the spec fixes to a string"""
+        if isinstance(sl, ast.Index):
+            sl = sl.value
+        if isinstance(sl, ast.Constant) and isinstance(sl.value, str):
+            return sl.value
+        if isinstance(sl, ast.Name) and env.get(sl.id) == "fixed" and isinstance(self.fixed.get(sl.id), dict) \
+                and "str" in self.fixed[sl.id]:
+            return self.fixed[sl.id]["str"]
+        return None
+
     def field_read(self, n, env):
         """e.name, e.features["key"], e["key"] on an expression e of a record type: the declared accessor
         (a Section variable, a function of the object) applied to e"""
@@ -679,11 +693,11 @@ class FnTranslator:
             if isinstance(n, ast.Attribute):
                 steps.append(n.attr)
                 n = n.value
-            elif isinstance(n, ast.Subscript) and str_key(n.slice):
-                sl = n.slice.value if isinstance(n.slice, ast.Index) else n.slice
-                if not re.fullmatch(r"\w+", sl.value):
-                    raise self.err("string key %r" % sl.value, n)
-                steps.append('["%s"]' % sl.value)
+            elif isinstance(n, ast.Subscript) and self.key_of(n.slice, env) is not None:
+                kv = self.key_of(n.slice, env)
+                if not re.fullmatch(r"\w+", kv):
+                    raise self.err("string key %r" % kv, n)
+                steps.append('["%s"]' % kv)
                 n = n.value
             else:
                 break
@@ -853,7 +867,14 @@ class FnTranslator:
         if isinstance(sl, ast.Slice):
             if sl.lower is None and sl.step is None and self.is_minus1(sl.upper):
                 return "(removelast %s)" % base, base_t
-            raise self.err("slice other than xs[:-1]", n)
+            if sl.lower is None and sl.step is None and sl.upper is not None:
+                # xs[:n] for a natural number n: the first n elements (a negative n would count from the end)
+                c, t = self.expr(sl.upper, env)
+                if is_lit(t) and not isinstance(t[1], float) and t[1] >= 0:
+                    c, t = "%d%%nat" % t[1], "nat"
+                if t == "nat":
+                    return "(firstn %s %s)" % (c, base), base_t
+            raise self.err("slice other than xs[:-1] / xs[:n] with a natural number n", n)
         # safe idiom: xs[i] inside `for i in range(len(xs))`
         if isinstance(sl, ast.Name):
             for (lst_dump, ivar, evar) in self.safe_index:
@@ -905,6 +926,34 @@ class FnTranslator:
         f = dotted(n.func)
         if f is None:
             raise self.err("call of a computed function", n)
+        if f == "sorted" and "sorted" not in env and f not in getattr(self, "shadowed_builtins", ()):
+            # sorted(xs, key=lambda x: E) with numeric keys: the STABLE sort by `<` on the keys (insertion from the
+            # right, as Base/StableSort.v; for keys on which < is not a strict weak order - NaN - Python's result is
+            # unspecified, and so is the meaning of this term)
+            if len(n.args) != 1 or len(n.keywords) != 1 or n.keywords[0].arg != "key" or not isinstance(n.keywords[0].value, ast.Lambda):
+                raise self.err("sorted() other than sorted(xs, key=lambda x: E)", n)
+            lam = n.keywords[0].value
+            la = lam.args
+            if la.vararg or la.kwarg or la.kwonlyargs or la.defaults or getattr(la, "posonlyargs", []) or len(la.args) != 1:
+                raise self.err("key function of sorted() is not a one-argument lambda", lam)
+            xs, t = self.expr(n.args[0], env)
+            if not is_list(t):
+                raise self.err("sorted() of a value of type %s" % (t,), n)
+            v = la.args[0].arg
+            if v in env:
+                raise self.err("lambda variable %r shadows a bound name" % v, lam)
+            saved = self.loop_targets
+            self.loop_targets = self.loop_targets | {v}
+            try:
+                ka = self.no_partial(lambda: self.expr(lam.body, dict(env, **{v: t[1]}), "T"), "a key function", lam)[0]
+            finally:
+                self.loop_targets = saved
+            a_, b_ = mangle(v) + "_a", mangle(v) + "_b"
+            kb = re.sub(r"\b%s\b" % re.escape(mangle(v)), b_, ka)
+            ka = re.sub(r"\b%s\b" % re.escape(mangle(v)), a_, ka)
+            self.use("ltb")
+            self.ghelpers.add("py_sorted")
+            return "(py_sorted (fun %s %s => negb (ltb %s %s)) %s)" % (a_, b_, kb, ka, xs), t
         if f in self.picks:
             # random.choice(xs): the element at an index that is a Section variable of its own for this call site
             # (IndexError on an empty sequence; an index beyond the end is not a behaviour of the function: None)
@@ -1170,7 +1219,7 @@ class FnTranslator:
             return True
         if isinstance(v, (ast.List, ast.ListComp)):
             return True
-        if isinstance(v, ast.Call) and dotted(v.func) == "list" and len(v.args) == 1:
+        if isinstance(v, ast.Call) and dotted(v.func) in ("list", "sorted") and len(v.args) == 1:
             return True
         if isinstance(v, ast.Call) and isinstance(v.func, ast.Attribute) and v.func.attr == "copy" and not v.args:
             return True
@@ -1216,6 +1265,8 @@ class FnTranslator:
                 if t == ("list", "T") and ta == "Z":
                     return "(%s, %s)" % (me, c), "costvec"
                 raise self.err("append of a %s to a list of %s" % (ta, t[1]), s)
+            if kind == "reverse":
+                return "(rev %s)" % me, t
             if kind == "extend":
                 c, ta = self.expr(args[0], env)
                 if ta != t:
@@ -1451,6 +1502,14 @@ class FnTranslator:
             if isinstance(nd, ast.Call) and dotted(nd.func) == "range" and len(nd.args) == 1 and isinstance(nd.args[0], ast.Call) \
                     and dotted(nd.args[0].func) == "len" and len(nd.args[0].args) == 1:
                 for m in ast.walk(nd.args[0].args[0]):
+                    len_only.add(id(m))
+            # ... and so is a snapshot list(xs) / xs.copy(): the loop runs over the copy made at entry
+            if isinstance(nd, ast.Call) and dotted(nd.func) == "list" and len(nd.args) == 1 and not nd.keywords \
+                    and "list" not in env and "list" not in getattr(self, "shadowed_builtins", ()):
+                for m in ast.walk(nd.args[0]):
+                    len_only.add(id(m))
+            if isinstance(nd, ast.Call) and isinstance(nd.func, ast.Attribute) and nd.func.attr == "copy" and not nd.args:
+                for m in ast.walk(nd.func.value):
                     len_only.add(id(m))
         for nd in ast.walk(s.iter):
             if id(nd) in len_only:
@@ -1799,6 +1858,13 @@ Fixpoint py_remove {A : Type} (eq : A -> A -> bool) (v : A) (l : list A) : optio
   | [] => None
   | y :: l' => if eq y v then Some l' else match py_remove eq v l' with Some r => Some (y :: r) | None => None end
   end.""",
+    "py_sorted": """(* Python: sorted(xs, key=k) as the stable insertion sort from the right; leb a b = not (k b < k a) *)
+Fixpoint py_insert {A : Type} (leb : A -> A -> bool) (x : A) (l : list A) : list A :=
+  match l with
+  | [] => [x]
+  | y :: l' => if leb x y then x :: l else y :: py_insert leb x l'
+  end.
+Definition py_sorted {A : Type} (leb : A -> A -> bool) (l : list A) : list A := fold_right (py_insert leb) [] l.""",
     "py_zindex": """(* Python: the position an integer index k denotes in a sequence of length n (k < 0 counts from the end);
    IndexError (None) when it lies before the first element; a position >= n fails at the access *)
 Definition py_zindex (k : Z) (n : nat) : option nat :=
@@ -1822,7 +1888,7 @@ def find_function(tree, cls, name, path):
     return fns[0]
 
 
-INTERPRETED_BUILTINS = ("len", "abs", "min", "max", "float", "tuple", "zip", "enumerate", "range", "list", "map")
+INTERPRETED_BUILTINS = ("len", "abs", "min", "max", "float", "tuple", "zip", "enumerate", "range", "list", "map", "sorted")
 SAFE_STAR_IMPORTS = ("abc",)          # modules known not to export a name of INTERPRETED_BUILTINS
 
 
